@@ -259,10 +259,30 @@ class EG:
         self.tags.add("call")
         return ast.Call(ast.Name(self.pick(["abs", "int", "round"]), ast.Load()), [self.num(depth - 1)], [])
 
+    def var_leaf(self):
+        self.tags.add("name")
+        return self.pick([lambda: ast.Name("G_I", ast.Load()), lambda: ast.Name("G_J", ast.Load()), lambda: ast.Name("G_F", ast.Load()),
+                          lambda: ast.Attribute(ast.Name("G_O", ast.Load()), "a", ast.Load()),
+                          lambda: ast.Subscript(ast.Name("G_L", ast.Load()), ast.Constant(1), ast.Load()),
+                          lambda: ast.Constant(self.pick([2, 3, 5]))])()
+
+    def paren_sensitive(self):
+        """A op1 (B op2 C) or (A op2 B) op1 C over non-constant operands: the grouping must survive re-printing"""
+        self.tags.add("paren-sensitive")
+        a, b, c = self.var_leaf(), self.var_leaf(), self.var_leaf()
+        op1, op2 = self.pick(BINOPS), self.pick(BINOPS)
+        if self.draw(st.booleans()):
+            self.tags.add("binop-right-nested")
+            return ast.BinOp(a, op1(), ast.BinOp(b, op2(), c))
+        self.tags.add("binop-left-nested")
+        return ast.BinOp(ast.BinOp(a, op2(), b), op1(), c)
+
     def anyexpr(self, depth):
         if depth <= 0 or self.draw(st.integers(0, 4)) == 0:
             return self.leaf()
-        k = self.draw(st.integers(0, 19))
+        k = self.draw(st.integers(0, 22))
+        if k >= 20:
+            return self.paren_sensitive()
         if k <= 4:
             return self.num(depth)
         if k == 5:
